@@ -36,8 +36,8 @@ CLAIMED = {
     "C10": ("model-based PBT: builder programs vs BTreeMap model, wire round trips, recycle chains",
         "Generated builder programs (ordinal and 0..40 UUID types, duplicates, over-limit adds) predicted by a model; snapshot checked directly, after both wire forms, after recycle + second program, and for snapshots obtained by applying a delta: items(), item() for every key incl. UUID types, absent keys, crc, re-serialization.",
         "Sampling.", "DESIGN.md 2/C10"),
-    "C11": ("proptest structured corruption of valid snapshots/deltas in both wire forms + exhaustive single-word/byte sweeps + random words/bytes; oracle = no panic, callback fuel, per-thread counting allocator bound, independent reference reader, follow-up operations",
-        "Snapshots and deltas from an independent writer (ordinal, registry, extended, >= 0x8000 types, duplicate keys, registry id ladders, near 1024 items / 64 KiB) with 0..3 corruptions of structural fields to boundary values, truncations, inserts; every word x ~55 values and every truncation of a small valid input; random noise. Every parser call and apply: no panic, peak allocation <= 64 x input + 64 KiB, accept/reject agrees with a reference reader from doc/snapshot.md; accepted snapshots: <= 1024 items, <= 64 KiB, write/read equal, items/item/crc, create/apply against empty and other accepted snapshots, recycle + add_item + finish.",
+    "C11": ("proptest structured corruption of valid snapshots/deltas in both wire forms + exhaustive single-word/byte sweeps + random words/bytes; oracle = no panic, callback fuel, per-thread counting allocator bound, independent reference reader, follow-up operations; stateful PBT of hostile-server message histories against the client Manager/Storage",
+        "Snapshots and deltas from an independent writer (ordinal, registry, extended, >= 0x8000 types, duplicate keys, registry id ladders, near 1024 items / 64 KiB) with 0..3 corruptions of structural fields to boundary values, truncations, inserts; every word x ~55 values and every truncation of a small valid input; random noise. Every parser call and apply: no panic, peak allocation <= 64 x input + 64 KiB, accept/reject agrees with a reference reader from doc/snapshot.md; accepted snapshots: <= 1024 items, <= 64 KiB, write/read equal, items/item/crc, create/apply against empty and other accepted snapshots, recycle + add_item + finish. Section manager_hostile_server: histories of empty/single/multi-part snapshot messages with honest or hostile ticks, base ticks, checksums, part bookkeeping and delta bodies (incl. bodies reaching 1024 items / 64 KiB) and resets fed to snapshot::Manager: every call returns within fuel and the allocation bound, a snapshot is handed out only for a body the reference reader accepts applied to a base handed out before, with the announced checksum, strictly newer tick, ack_tick naming it; errors never move ack_tick to the refused tick.",
         "One open known finding (Delta::create on parsed snapshots with mismatched sizes) excludes that pair class.", "DESIGN.md 2/C11"),
     "C12": ("exhaustive permutations/interleavings for small part counts + proptest schedules; reference model of the receiver contract; twin-run without old-tick messages",
         "Every permutation and single duplication of up to 5 (7) parts, every interleaving of an older and a newer transfer, every data length 0..28800, and generated multi-transfer schedules with duplicates and hostile old-tick messages: exactly-once hand-out with original tick/base/crc/data, no warning on consistent transfers, old ticks never complete or disturb.",
@@ -52,13 +52,13 @@ CLAIMED = {
         "Every compressed size 1..300 x chunk kind, tick gaps around the inline-delta limit, every header string length; generated raw chunk sequences (payloads aimed at the 29/30, 255/256, 65535 boundaries) and typed ddnet world histories across key-frame intervals with refused ticks and failed snaps: reader returns the same sequence / object sets, no warnings, refusals do not panic and leave the recording usable.",
         "One open known finding restricts UUID object sizes in typed histories.", "DESIGN.md 2/C15"),
     "C16": ("independent datafile/map writer + exhaustive single-field corruption, truncation, structural mutation, random bytes; totality oracle with iterator fuel; exact read-back for well-formed files",
-        "Well-formed v3/v4/v4-crude files (raw, hand-rolled stored-deflate and libz data) read back exactly through three open paths; every header/type/offset/size/item-header field set to ~60 boundary values, every truncation, multi-mutations, random bytes, and for maps every item word set to ~40 values: open + every accessor returns value or error, never panics or loops.",
+        "Well-formed v3/v4/v4-crude files (raw, hand-rolled stored-deflate and libz data) read back exactly through three open paths; every header/type/offset/size/item-header field set to ~60 boundary values, every truncation, multi-mutations, random bytes, and for maps every item word set to ~40 values: open + every accessor returns value or error, never panics or loops, and every image/envelope/sound/layer/data index an accepted map item hands out lies inside the item-type range or data count it refers to.",
         "Uncompressed sizes above 16 MiB are not read (resource exhaustion is out of scope).", "DESIGN.md 2/C16"),
     "C17": ("metamorphic PBT over read-callback fragmentations + independent doc-based tick/position model; exhaustive 2- and 3-piece splits of a fixed all-kinds stream",
         "Generated server histories (all message kinds, extensions, implicit/explicit ticks, wraps) read in one piece, byte by byte, under generated schedules and every two-piece split must give identical items; items must nest in strictly increasing ticks equal to the doc pseudo-code's numbers; positions/inputs equal running wrapping sums; truncated/mutated/random streams: items or error, no panic, fuel on callbacks.",
         "Uses the verif module hook exposing the incremental reader.", "DESIGN.md 2/C17"),
     "C18": ("model server + exhaustive truncations/byte patches/numeric sweeps + proptest hostile datagrams; exhaustive arrival sequences and generated merge schedules vs model",
-        "All thirteen response kinds: every truncation, byte patch and boundary value of every numeric field, generated hostile datagrams: value or nothing, never a panic, returned data inside the datagram and sane. Merging: every arrival sequence up to length 5-7 and generated schedules up to 64 parts: complete iff every part merged, result equals the model's client set.",
+        "All thirteen response kinds: every truncation, byte patch and boundary value of every numeric field, generated hostile datagrams: value or nothing, never a panic, returned data inside the datagram and sane. Merging: every arrival sequence up to length 5-7 and generated schedules up to 64 parts (extended infos with generated packet sizes, legacy 64-player infos cut evenly and unevenly down to one client per part): complete iff every part merged, result equals the model's client set.",
         "One open known finding (merge does not record received parts) removes repeated parts from generated schedules.", "DESIGN.md 2/C18"),
     "C19": ("model-based stateful PBT over view trees on every backing store with canary-guarded memory + exhaustive small-capacity sweeps; ASan replay of all checks in the thorough tier",
         "Generated histories (write, extend incl. endless/panicking iterators, nested views to depth 4, cap_at below/at/above capacity, readers, raw advance, early exits, unwinding) on Vec, ArrayVec, slice, slice reference; exhaustive sweep of every capacity 0..64 x pre-existing length x caps x write lengths. Model = linear byte string + limit per view: remaining(), initialized() and the container length after release must match exactly, nothing outside the window is touched.",
